@@ -199,7 +199,7 @@ def lit_s(l):
 
 
 def fr(p):
-    return repr(float(p))
+    return repr(float(F(p)))
 
 
 def stmt_src(s):
@@ -252,15 +252,15 @@ def reference(P):
             rules.append((s[1], [], None))
         elif s[0] == "pf":
             cid = ("pf", si)
-            groups.append([(s[1], cid)])
+            groups.append([(F(s[1]), cid)])
             rules.append((s[2], [], cid))
         else:
             if s[0] == "rule":
                 heads, body = [(None, s[1])], s[2]
             elif s[0] == "prule":
-                heads, body = [(s[1], s[2])], s[3]
+                heads, body = [(F(s[1]), s[2])], s[3]
             else:
-                heads, body = s[1], s[2]
+                heads, body = [(F(p), h) for p, h in s[1]], s[2]
             vs = vars_of([h for _, h in heads] + [a for _, a in body])
             for vals in itertools.product(consts, repeat=len(vs)):
                 th = dict(zip(vs, vals))
